@@ -88,6 +88,33 @@ pub fn boundary_docs(format: &str, lit: &str) -> Vec<Doc> {
                     out.push(Doc::new(format!("delta={d0},{d1}"), t));
                 }
             }
+            // 7-bit codes of every length 1..=11 with extreme first / middle / last groups, as first
+            // and as second delta
+            for len in 1..=11usize {
+                for first in [0x80u8, 0x81, 0xff] {
+                    for mid in [0x80u8, 0xff] {
+                        for last in [0x00u8, 0x01, 0x02, 0x03, 0x40, 0x7f] {
+                            let mut code = Vec::new();
+                            for k in 0..len - 1 {
+                                code.push(if k == 0 { first } else { mid });
+                            }
+                            code.push(last);
+                            for as_first in [true, false] {
+                                let mut t = base.clone();
+                                if as_first {
+                                    t.extend_from_slice(&code);
+                                    t.push(0x00);
+                                } else {
+                                    t.push(0x00);
+                                    t.extend_from_slice(&code);
+                                }
+                                t.extend_from_slice(&tail[2..]);
+                                out.push(Doc::new("varint", t));
+                            }
+                        }
+                    }
+                }
+            }
             for extra in [&[0x80u8, 0x01][..], &[0x8c, 0x00][..], &[0xff, 0xff, 0xff, 0xff, 0xff, 0xff, 0xff, 0xff, 0xff, 0x01][..], &[0x80, 0x80, 0x80, 0x80, 0x80, 0x80, 0x80, 0x80, 0x80, 0x80, 0x00][..]] {
                 let mut t = base.clone();
                 t.extend_from_slice(extra);
